@@ -178,6 +178,54 @@ func (c *Ctx) checkIterProgress() {
 	r := c.R
 	n := 0
 	nchild := 0
+	// subjects: Next/next methods of types with a wrapped cursor, plus the same-receiver helper methods they delegate the
+	// step to (helpers that themselves advance a wrapped cursor)
+	cursorFieldsOf := func(recvN *types.Named) map[*types.Var]bool {
+		cursors := map[*types.Var]bool{}
+		if recvN == nil {
+			return cursors
+		}
+		st, ok := recvN.Underlying().(*types.Struct)
+		if !ok {
+			return cursors
+		}
+		for i := 0; i < st.NumFields(); i++ {
+			if hasNextDone(st.Field(i).Type()) {
+				cursors[st.Field(i)] = true
+			}
+		}
+		return cursors
+	}
+	advancesCursorDirectly := func(fn *ssa.Function, cursors map[*types.Var]bool) bool {
+		if len(fn.Params) == 0 {
+			return false
+		}
+		for _, ci := range core.CallsIn(fn) {
+			call, ok := ci.(*ssa.Call)
+			if !ok {
+				continue
+			}
+			cc := call.Common()
+			var rv ssa.Value
+			name := ""
+			if cc.IsInvoke() {
+				rv, name = cc.Value, cc.Method.Name()
+			} else if f := cc.StaticCallee(); f != nil && f.Signature.Recv() != nil && len(cc.Args) > 0 {
+				rv, name = cc.Args[0], f.Name()
+			}
+			if name != "Next" || rv == nil {
+				continue
+			}
+			if u, ok := rv.(*ssa.UnOp); ok && u.Op == token.MUL {
+				if _, fv, ok := core.FieldAddrOf(u.X); ok && core.RootOfAddr(u.X) == ssa.Value(fn.Params[0]) && cursors[fv] {
+					return true
+				}
+			}
+		}
+		return false
+	}
+	var subjects []*ssa.Function
+	isSubject := map[*ssa.Function]bool{}
 	for _, fn := range c.G.Funcs() {
 		rel, ok := c.P.PkgOf(fn)
 		if !ok || !(rel == "hamt" || rel == "iter" || rel == "directory" || rel == "") || fn.Synthetic != "" || c.P.IsGenerated(fn.Pos()) {
@@ -186,23 +234,29 @@ func (c *Ctx) checkIterProgress() {
 		if fn.Signature.Recv() == nil || (fn.Name() != "Next" && fn.Name() != "next") || len(fn.Params) == 0 {
 			continue
 		}
-		recvN := core.RecvNamed(fn)
-		if recvN == nil {
+		if len(cursorFieldsOf(core.RecvNamed(fn))) == 0 {
 			continue
 		}
-		st, ok := recvN.Underlying().(*types.Struct)
-		if !ok {
-			continue
-		}
-		cursors := map[*types.Var]bool{}
-		for i := 0; i < st.NumFields(); i++ {
-			if hasNextDone(st.Field(i).Type()) {
-				cursors[st.Field(i)] = true
+		subjects = append(subjects, fn)
+		isSubject[fn] = true
+	}
+	for i := 0; i < len(subjects); i++ {
+		fn := subjects[i]
+		cursors := cursorFieldsOf(core.RecvNamed(fn))
+		for _, ci := range core.CallsIn(fn) {
+			h := ci.Common().StaticCallee()
+			if h == nil || isSubject[h] || core.RecvNamed(h) != core.RecvNamed(fn) || len(ci.Common().Args) == 0 || ci.Common().Args[0] != ssa.Value(fn.Params[0]) || len(h.Blocks) == 0 {
+				continue
+			}
+			if advancesCursorDirectly(h, cursors) {
+				subjects = append(subjects, h)
+				isSubject[h] = true
 			}
 		}
-		if len(cursors) == 0 {
-			continue
-		}
+	}
+	for _, fn := range subjects {
+		recvN := core.RecvNamed(fn)
+		cursors := cursorFieldsOf(recvN)
 		n++
 		recv := fn.Params[0]
 		key := core.FuncName(fn) + "/advance-or-done"
@@ -246,7 +300,7 @@ func (c *Ctx) checkIterProgress() {
 							} else if name == "Done" {
 								doneVals[x] = true
 							}
-						} else if f := x.Call.StaticCallee(); f != nil && core.RecvNamed(f) == recvN && (f.Name() == "next" || f.Name() == "Next") && len(x.Call.Args) > 0 && x.Call.Args[0] == ssa.Value(recv) {
+						} else if f := x.Call.StaticCallee(); f != nil && core.RecvNamed(f) == recvN && isSubject[f] && len(x.Call.Args) > 0 && x.Call.Args[0] == ssa.Value(recv) {
 							advanced = true // delegates to the sibling method, which is checked on its own
 						}
 					case *ssa.Return:
